@@ -6,7 +6,7 @@ import coqfmt as cf
 RULE = ("cases = (a) random nestings of chain / tree / stack / concatenate (depth <= 3, <= 8 variables, elements of "
         "DIFFERENT diameters stacked together) with random edge values incl. invalid ones, over plain AValue[m..] and "
         "ATally[n,K,C] types: value at every assignment and modelcount; (b) random OPERATION SEQUENCES (length <= 4) of "
-        "sum with a re-randomised copy or a chain and restrict of any variable to any value (40% with inplace=True; the copying mode must leave its operand unchanged), applied to the diagram "
+        "sum with a partner of any shape and WIDTH over the same variables (re-randomised copy, chain, tree, concatenations of 2-3 parts, header trees, 'zig' diagrams whose two nodes per level are told apart by a middle variable; half of them with whole levels of zero edge values; in both operand orders; half over a roomier value type) and restrict of any variable to any value (40% with inplace=True; the copying mode must leave its operand unchanged), applied to the diagram "
         "dumped from the implementation: value table and modelcount after EVERY step; (c) value types: the whole domain, "
         "operator.index of every element, x+y and x-y for all pairs with valid x (out-of-place and in-place), equality, "
         "hashing after in-place updates, dictionary lookups. Compared are semantics, never array layouts. "
